@@ -116,7 +116,7 @@ static void c15_gen_common(Tape &t, Case &c, bool large) {
   else { go.maxm = 2 + (int)t.below(25); go.maxn = 2 + (int)t.below(30); go.bigness = 1; }
   GenLP g;
   static const int fam[] = {F_OPT, F_OPT, F_FACE, F_OPT, F_INF, F_RAND, F_OPT, F_SHAPE};
-  gen_lp_family(t, go, large ? (t.chance(1, 6) ? F_INF : F_OPT) : fam[t.below(8)], g);
+  gen_lp_family(t, go, large ? (t.chance(1, 3) ? F_DUP : (t.chance(1, 6) ? F_INF : F_OPT)) : (t.chance(1, 9) ? F_DUP : fam[t.below(8)]), g);
   Model m2 = g.m;
   Affine af;
   Op tr("transform");
